@@ -24,7 +24,7 @@ func init() {
 	RegisterSub("C18", "aad", RunC18Aad)
 }
 
-const c18Rule = "catalogue struct types x gen.FillRows rows x random writer configuration (page version, codec, page buffer from 1 byte, rows per row group from 1, dictionary limit, statistics) x {encrypted footer, plaintext signed footer} x {footer key only, key per column, keys for some columns} x AES-128/192/256 x AAD prefix x writer path (GenericWriter batches+Flush, Writer.Write, WriteRowGroup of a buffer, WriteRows, Writer.Reset reuse, BeginRowGroup/Commit) x bloom filters; read with all keys (typed, pages, rows, seek histories, bloom filter, page index) and with some column keys missing; every sealed module opened with crypto/aes+GCM under the Lean model's AAD; exact writer histories (pages cut only by ColumnWriter.Flush, Flush, Commit, Close; 1-3 files per writer through Reset; row groups of BeginRowGroup kept across Reset) whose every module is opened under the type, ordinals and file-identifier generation the Lean writer state machine predicts; every way of handing the options to a writer or to OpenFile (functional options, configuration structs with and without the Encryption/Decryption field before and after, NewWriterConfig/NewFileConfig results passed on, through NewGenericWriter, NewWriter, Write and NewSortingWriter) against the documented rule and the Lean mirror of the merge; exact histories of ReadPage/SeekToRow/ReadDictionary on the page reader of one chunk (offset index loaded or not, dictionary pages and PLAIN fallback pages) intact and with one module damaged, against the Lean mirror of the page reader; marker scan of the raw bytes; fault enumeration (byte flips, truncation, module swaps, cross-file transplant, wrong key, wrong AAD prefix); non-trivial = a file with at least 2 row groups or 2 pages in a chunk, and a column key distinct from the footer key"
+const c18Rule = "catalogue struct types x gen.FillRows rows x random writer configuration (page version, codec, page buffer from 1 byte, rows per row group from 1, dictionary limit, statistics) x {encrypted footer, plaintext signed footer} x {footer key only, key per column, keys for some columns} x AES-128/192/256 x AAD prefix x writer path (GenericWriter batches+Flush, Writer.Write, WriteRowGroup of a buffer, WriteRows, Writer.Reset reuse, BeginRowGroup/Commit) x bloom filters; read with all keys (typed, pages, rows, seek histories, bloom filter, page index) and with some column keys missing; every sealed module opened with crypto/aes+GCM under the Lean model's AAD; exact writer histories (pages cut only by ColumnWriter.Flush, Flush, Commit, Close; 1-3 files per writer through Reset; row groups of BeginRowGroup kept across Reset) whose every module is opened under the type, ordinals and file-identifier generation the Lean writer state machine predicts; every way of handing the options to a writer or to OpenFile (functional options, configuration structs with and without the Encryption/Decryption field before and after, NewWriterConfig/NewFileConfig results passed on, through NewGenericWriter, NewWriter, Write and NewSortingWriter) against the documented rule and the Lean mirror of the merge; exact histories of ReadPage/SeekToRow/ReadDictionary on the page reader of one chunk (offset index loaded or not, dictionary pages and PLAIN fallback pages) intact and with one module damaged, against the Lean mirror of the page reader; histories of OpenFile (with and without SkipPageIndex), ColumnIndex(), OffsetIndex() and BloomFilter() calls (chunks with and without column index and bloom filter) intact and with one module damaged, against the Lean mirror that goes through the call-site table; marker scan of the raw bytes; fault enumeration (byte flips, truncation, module swaps, cross-file transplant, wrong key, wrong AAD prefix); non-trivial = a file with at least 2 row groups or 2 pages in a chunk, and a column key distinct from the footer key"
 
 // c18File is one written file with everything needed to read it back and to replay it.
 type c18File struct {
